@@ -30,15 +30,23 @@ StepOps ==
   LET f == Top IN
   IF f.i <= Len(f.blk)
   THEN LET n == f.blk[f.i]  d == ND(n) IN
-       IF d.kind \in {"assign", "expr", "return", "if", "while", "for"}
+       IF d.kind \in {"assign", "aug", "assign2", "expr", "return", "if", "while", "for"}
        THEN LET r == Eval(d.e, f.env, S0(PadTo(Used, d.nch)))
                 ok == r.s.err = "" IN
             CASE d.kind = "if"    -> r.s.ops \o (IF ok THEN << <<"if_stmt", Len(r.s.log)>> >> ELSE <<>>)
               [] d.kind = "while" -> << <<"while_stmt", Len(log)>> >> \o r.s.ops
               [] d.kind = "for"   -> r.s.ops \o (IF ok THEN << <<"for_stmt", Len(r.s.log)>> >> ELSE <<>>)
               [] OTHER            -> r.s.ops
-       ELSE IF d.kind = "setattr"
+       ELSE IF d.kind \in {"setattr", "setitem"}
        THEN Eval(d.e, f.env, S0(PadTo(Used, d.nch))).s.ops
+       \* list operations are calls of a method (flag 2: routed through converted_call only when the LISTS feature is off;
+       \* with it they become ag__.list_append / ag__.list_pop)
+       ELSE IF d.kind \in {"append", "pop"}
+       THEN LET c == CellOf(envs, f.env, d.name) IN
+            IF c = 0 \/ cells[c] = Unbound THEN <<>>
+            ELSE IF d.kind = "pop" THEN << <<"call", Len(log), 2>> >>
+            ELSE LET r == Eval(d.e, f.env, S0(PadTo(Used, d.nch))) IN
+                 r.s.ops \o (IF r.s.err = "" THEN << <<"call", Len(r.s.log), 2>> >> ELSE <<>>)
        ELSE IF d.kind = "newobj" THEN << <<"call", Len(log)>> >>
        ELSE IF d.kind = "call" /\ NCallsOf(ctrl') > NCallsOf(ctrl) THEN << <<"call", Len(log)>> >>
        ELSE IF d.kind = "call"       \* a lambda value: the call, then whatever its body goes through
@@ -63,11 +71,11 @@ StepOps ==
 RECURSIVE RootEnv(_)
 RootEnv(e) == IF envs[e].parent = 0 THEN e ELSE RootEnv(envs[e].parent)
 InCallee == IF envs[RootEnv(Top.env)].fn # 1 THEN 1 ELSE 0
-Flag(evs) == [j \in 1..Len(evs) |-> <<evs[j][1], evs[j][2], InCallee>>]
+Flag(evs) == [j \in 1..Len(evs) |-> IF Len(evs[j]) = 3 THEN evs[j] ELSE <<evs[j][1], evs[j][2], InCallee>>]
 
 MInit == Init /\ ulog = <<>>
 MStep == Step /\ ulog' = ulog \o Flag(StepOps)
 MSpec == MInit /\ [][MStep]_mvars
-Report == (status[1] # "run") => PrintT(ToJson([pid |-> pid, dec |-> dec, inp |-> inp, ulog |-> ulog, log |-> log, out |-> status,
+Report == (status[1] # "run") => PrintT(ToJson([pid |-> pid, dec |-> dec, inp |-> inp, ulog |-> ulog, log |-> log, out |-> Out,
                                                xlog |-> xlog, xnode |-> xnode, xfirst |-> xfirst, delx |-> delx, oc |-> oc]))
 =============================================================================
